@@ -19,6 +19,7 @@ import OmbottModel.Drv.App
 import OmbottModel.Drv.RespHelp
 import OmbottModel.Drv.Upload
 import OmbottModel.Drv.Config
+import OmbottModel.Drv.ReqObj
 /-! Dispatch of a protocol line to the area handlers.  `State` holds the few models that are
 driven as state machines across lines (router, multipart feed, header store). -/
 namespace Drv
@@ -57,6 +58,7 @@ def step (st : State) (line : String) : State × String :=
     | "resphelp" => pure? (RespHelp.handle rest)
     | "upload" => pure? (Upload.handle rest)
     | "config" => pure? (Config.handle rest)
+    | "reqobj" => pure? (ReqObj.handle rest)
     | _ => (st, "bad-op")
 
 end Drv
